@@ -5,7 +5,7 @@
 //
 //   op src     kind a b        (which valid file: events / gA pdf / gA ocdf / catalogue list; a,b choose content)
 //   op trunc   k               | flip pos xor | setbyte pos chidx | zero pos len | drop pos len | dup pos len
-//   op dropline n | dupline n | empty
+//   op dropline n | dupline n | empty | splice pos src taillen at_line_boundary  (new head + stale tail of another file)
 //   op rfault  kind arg        (in flight: 1 short reads, 3 EIO from read #arg)
 //   op use     start max       (events: reader window)
 //
@@ -90,6 +90,20 @@ std::string damage(std::string d, const Plan & plan, Outcome & out)
       size_t b = ls[li], e = li + 1 < ls.size() ? ls[li + 1] : n;
       if (op.k == "dropline") { d.erase(b, e - b); out.ctr["fault_dropped_line"]++; }
       else { d.insert(b, d.substr(b, e - b)); out.ctr["fault_duplicated_line"]++; }
+    }
+    else if (op.k == "splice") {
+      // torn in-place overwrite: the head of the new file, then stale bytes of whatever the blocks held before
+      // (the tail of another valid file; the shipped Test table ends with a comment line)
+      size_t cut = (size_t)(op.arg(0) % (i64)(n + 1));
+      if (op.arg(3)) { size_t nl = d.rfind('\n', cut ? cut - 1 : 0); cut = nl == std::string::npos ? 0 : nl + 1; } // at a line boundary
+      std::string old;
+      i64 src = op.arg(1) % 3;
+      if (src == 0) old = read_real(repo_dir() + "/resources/data/dbd_gA/Test/g0/tab_pdf.data");
+      else if (src == 1) old = ga_file(SETS[(size_t)(op.arg(1) / 3 % 3)], "tab_ocdf.data");
+      else old = valid_events(op.arg(1), 1);
+      size_t tl = std::min<size_t>((size_t)op.arg(2), old.size());
+      d = d.substr(0, cut) + old.substr(old.size() - tl);
+      out.ctr["fault_stale_tail_spliced"]++;
     }
     else if (op.k == "empty") { d.clear(); out.ctr["fault_empty_file"]++; }
   }
@@ -369,7 +383,8 @@ void gen_faults(Rng & r, Plan & p, size_t approx_size, bool allow_inflight)
     else if (d < 76) { o.k = "drop"; o.a = {r.chance(0.5) ? (pos / 512) * 512 : pos, r.chance(0.5) ? 512 : r.range(1, 64)}; }
     else if (d < 82) { o.k = "dup"; o.a = {r.chance(0.5) ? (pos / 512) * 512 : pos, r.chance(0.5) ? 512 : r.range(1, 64)}; }
     else if (d < 89) { o.k = "dropline"; o.a = {(i64)r.below(60)}; }
-    else if (d < 96) { o.k = "dupline"; o.a = {(i64)r.below(60)}; }
+    else if (d < 93) { o.k = "dupline"; o.a = {(i64)r.below(60)}; }
+    else if (d < 97) { o.k = "splice"; o.a = {(i64)r.below(approx_size + 1), (i64)r.below(9), r.chance(0.5) ? r.range(1, 12) : r.range(13, 600), (i64)r.chance(0.6)}; }
     else { o.k = "empty"; }
     p.ops.push_back(o);
   }
